@@ -53,10 +53,14 @@ func (cj *CookieJar) Get(uri *fasthttp.URI) []*fasthttp.Cookie {
 		return nil
 	}
 
+	cj.mu.Lock()
+	defer cj.mu.Unlock()
+
 	return cj.getByHostAndPath(uri.Host(), uri.Path())
 }
 
-// getByHostAndPath returns cookies stored for a specific host and path.
+// getByHostAndPath returns cookies stored for a specific host and path: the jar's own objects, which other
+// users of the jar update in place. The caller holds cj.mu, also while it reads them.
 func (cj *CookieJar) getByHostAndPath(host, path []byte) []*fasthttp.Cookie {
 	if cj.hostCookies == nil {
 		return nil
@@ -74,7 +78,7 @@ func (cj *CookieJar) getByHostAndPath(host, path []byte) []*fasthttp.Cookie {
 		hostStr = utils.UnsafeString(host)
 	}
 	// get cookies deleting expired ones
-	cookies = cj.getCookiesByHost(hostStr)
+	cookies = cj.cookiesByHost(hostStr)
 
 	newCookies := make([]*fasthttp.Cookie, 0, len(cookies))
 	for i := 0; i < len(cookies); i++ {
@@ -93,6 +97,11 @@ func (cj *CookieJar) getCookiesByHost(host string) []*fasthttp.Cookie {
 	cj.mu.Lock()
 	defer cj.mu.Unlock()
 
+	return cj.cookiesByHost(host)
+}
+
+// cookiesByHost is getCookiesByHost for callers that hold cj.mu.
+func (cj *CookieJar) cookiesByHost(host string) []*fasthttp.Cookie {
 	now := time.Now()
 	cookies := cj.hostCookies[host]
 
@@ -183,6 +192,10 @@ func (cj *CookieJar) SetKeyValueBytes(host string, key, value []byte) {
 // dumpCookiesToReq writes the stored cookies to the given request.
 func (cj *CookieJar) dumpCookiesToReq(req *fasthttp.Request) {
 	uri := req.URI()
+
+	cj.mu.Lock()
+	defer cj.mu.Unlock()
+
 	cookies := cj.getByHostAndPath(uri.Host(), uri.Path())
 	for _, cookie := range cookies {
 		req.Header.SetCookieBytesKV(cookie.Key(), cookie.Value())
